@@ -555,7 +555,7 @@ def cases(rng, tier):
     if big:
         for h in itertools.product(mid, repeat=3):
             out.append(case_hist(list(h), 'exh-len3-mid'))
-    for _ in range(10000 if big else 1500):
+    for _ in range(6000 if big else 1500):
         n = rng.choice([3, 3, 4, 4, 5, 6])
         pool = alpha if rng.random() < 0.7 else mid
         out.append(case_hist([rng.choice(pool) for _ in range(n)], 'rand-short'))
